@@ -20,14 +20,15 @@ const c12Fuel = 100000
 
 func init() {
 	register(&Prop{ID: "C12", Run: c12Run,
-		Rule: "action trees whose nodes carry subsets of {set, template, log, ext trace, abort} (each op tagged with its node's unique name), a condition from {none, \"true\", \"false\", {{ .flagT }}, {{ .flagF }}} (random trees also: a flag written by ANOTHER action's set, which is a missing-field error when that action has not run) and distinct sibling orders (children listed in shuffled order). 'enum' cases: the scope root(16 op subsets of size<=2 x 5 conditions) x 0..2 children (6 op subsets of size<=1 x 5 conditions each) — sampled in the quick tier, exhaustive in the thorough tier; 'tree' cases: random trees, depth<=5, fan-out<=4 (thorough: depth 3 trees drawn from the full per-node alphabet in addition). 'mixed' cases: nodes carrying subsets of ALL operation kinds the program form knows (also call, define, forEach, loop) on the same node — every pair of kinds on one node, then random trees; 'allops' cases (no model): one action carrying a subset of all sixteen OpSpec fields (patch, import, templateFile, env, exec, export, html2Dom included), each configured to succeed or to fail — every pair of fields, then random subsets — the operations that ran must be the fields present in the DOCUMENTED order (a literal copy of the field list at the pinned commit, not reflection on the type under test) up to the first failing one; 'hist' cases (HISTORY): one ActionSpec value executed 2..4 times, each time by a fresh executor with its own data, listener and ext registrations (a function name may trace in one run, fail in the next, be absent in a third): every run must equal the reference for THAT run. Each case is executed twice: built as Go structs and decoded from generated YAML. Besides the model comparison every run is compared (direct predicate) with an independent Go reference interpreter (c12_ref.go: documented operation order, per-run ext registrations). Non-trivial: at least 2 actions and at least one operation (hist: at least 2 runs and an ext operation; allops: at least 2 fields). Distinct = distinct canonical case JSON.",
+		Rule: "action trees whose nodes carry subsets of {set, template, log, ext trace, abort} (each op tagged with its node's unique name), a condition from {none, \"true\", \"false\", {{ .flagT }}, {{ .flagF }}, \"\" (present but blank)} (random trees also: other boolean spellings, constant texts that are no boolean, blank and white-space-only texts — a non-nil pointer to \"\" / `when: \"\"`, `when: \"  \"` — at any depth, a flag written by ANOTHER action's set, which is a missing-field error when that action has not run, and the text ANOTHER action's template operation stores) and distinct sibling orders (children listed in shuffled order). Template operations of random trees render a non-boolean text, a boolean, or PARSE AND FAIL WHILE EXECUTING after having produced output (field of a scalar, index of a missing key, undefined associated template, sprig's fail): the failing operation stops the run and the final data of the failed run are compared like any other. 'enum' cases: the scope root(16 op subsets of size<=2 x 6 conditions) x 0..2 children (6 op subsets of size<=1 x 6 conditions each) — sampled in the quick tier, exhaustive in the thorough tier; 'tree' cases: random trees, depth<=5, fan-out<=4 (thorough: depth 3 trees drawn from the full per-node alphabet in addition). 'seq' cases: 2..3 actions executed one after the other by ONE executor on one data document (every call is made): each call must equal the reference on the data the earlier calls — failed ones included — left behind; later actions have conditions and templates that read the path an earlier template operation wrote to (first the minimal sequences: every kind of template text x top level / two levels down, then random ones). 'mixed' cases: nodes carrying subsets of ALL operation kinds the program form knows (also call, define, forEach, loop) on the same node — every pair of kinds on one node, then random trees; 'allops' cases (no model): one action carrying a subset of all sixteen OpSpec fields (patch, import, templateFile, env, exec, export, html2Dom included), each configured to succeed or to fail — every pair of fields, then random subsets — the operations that ran must be the fields present in the DOCUMENTED order (a literal copy of the field list at the pinned commit, not reflection on the type under test) up to the first failing one; 'hist' cases (HISTORY): one ActionSpec value executed 2..4 times, each time by a fresh executor with its own data, listener and ext registrations (a function name may trace in one run, fail in the next, be absent in a third): every run must equal the reference for THAT run. Each case is executed twice: built as Go structs and decoded from generated YAML. Besides the model comparison every run is compared (direct predicate) with an independent Go reference interpreter (c12_ref.go: documented operation order, per-run ext registrations; a condition that is present must evaluate to a boolean — blank texts are no boolean —; rendering yields all of the text or none). Non-trivial: at least 2 actions and at least one operation (hist: at least 2 runs and an ext operation; allops: at least 2 fields; seq: at least 2 actions in sequence). Distinct = distinct canonical case JSON.",
 		Assumptions: []string{
-			"template semantics owned by the model: literal text and {{ .a.b }} field chains of scalars only; strconv.ParseBool table; generated programs stay inside",
+			"template semantics owned by the model: literal text and {{ .a.b }} field chains of scalars only; strconv.ParseBool table; any other action makes the rendering fail in the model — of those the generators use only actions that fail in text/template on every data once the template is executed ({{ template \"nope\" }} with no associated template defined, sprig's {{ fail \"…\" }}, {{ index .k N }} of a key that no generated operation writes)",
 			"sibling order values are distinct and small (no overflow in the a.Order-b.Order comparator)",
 			"EvalBool calls are observed through a TemplateEngine wrapper that delegates to the library's own default engine",
 			"error identity: the returned error is compared with == against the errors passed to OnAfter; error texts are not compared (except the rendered abort message)",
 			"the fixed declared operation order is the documented one: the OpSpec field list at the pinned commit (c12DocumentedOrder); a change of that order is a violation, whatever the regenerated table says",
 			"allops: /bin/true-like program `true` on PATH for the exec operation (the field is left out otherwise); temp files under .work",
+			"seq: the model is applied once per action, each time to the data it computed for the previous one (the actions of these cases define no callables, so the data document is all the state that is carried over)",
 		}})
 	evals["C12"] = c12Eval
 	shrinkers["C12"] = shrinkJSON
@@ -51,7 +52,8 @@ func c12MkOp(kind, name string) c12Op {
 	panic(kind)
 }
 
-var c12Conds = []*string{nil, sp("true"), sp("false"), sp("{{ .flagT }}"), sp("{{ .flagF }}")}
+// the last one is PRESENT but blank: no boolean, the action must fail
+var c12Conds = []*string{nil, sp("true"), sp("false"), sp("{{ .flagT }}"), sp("{{ .flagF }}"), sp("")}
 
 func c12Data() W {
 	return plainWire(map[string]any{"flagT": true, "flagF": false, "keep": map[string]any{"x": 1, "y": "s"}})
@@ -116,7 +118,33 @@ func c12EnumTotal() int {
 	return nRoot * (1 + nKid + nKid*nKid)
 }
 
-func c12RandTree(r *rand.Rand, name string, depth, maxDepth, maxFan int, others *[]string) c12Act {
+// conditions that are present but blank
+var c12BlankConds = []string{"", "", " ", "  ", "\t", " \n "}
+
+// c12TemplateText: the text of a template operation.  Mostly text that renders (to something that is no
+// boolean, or to a boolean a later condition can read); sometimes a template that PARSES but fails while it is
+// being EXECUTED, after it has already produced output: a field of a scalar, an index of something that is not
+// there, an associated template nobody defined, sprig's fail.  The operation fails (and stops the run); what it
+// leaves at its path is part of the final data of the failed run.
+func c12TemplateText(r *rand.Rand, name string) string {
+	switch x := r.Intn(20); {
+	case x < 9:
+		return "{{ .flagT }}-" + name
+	case x < 12:
+		return pick(r, []string{"{{ .flagT }}", "{{ .flagF }}", "true", " {{ .flagT }} "})
+	case x < 14:
+		return pick(r, []string{"{{ .nokey }}", "{{ .keep.x }}{{ .keep.y }}", name})
+	}
+	pre := pick(r, []string{"P-" + name + "-", "{{ .flagT }}", "true", "1", "{{ .keep.y }}:", " "})
+	bad := pick(r, []string{"{{ .keep.y.z }}", "{{ .keep.x.q }}", "{{ .flagT.on }}", "{{ index .nokey 0 }}", "{{ index .keep.missing 1 }}",
+		"{{ template \"nope\" }}", "{{ fail \"boom\" }}"})
+	post := pick(r, []string{"", "", "-tail", "{{ .flagF }}"})
+	return pre + bad + post
+}
+
+// c12RandTree: others = names of actions that carry a set operation; tpls (may be nil: template operations keep
+// their standard text) = names of actions that carry a template operation, both in generation order.
+func c12RandTree(r *rand.Rand, name string, depth, maxDepth, maxFan int, others *[]string, tpls *[]string) c12Act {
 	var ops []string
 	for _, k := range c12OpKinds {
 		p := 0.35
@@ -149,7 +177,25 @@ func c12RandTree(r *rand.Rand, name string, depth, maxDepth, maxFan int, others 
 			cond = nil
 		}
 	}
+	if r.Intn(14) == 0 {
+		// a condition that is PRESENT but blank (struct: non-nil pointer to ""; YAML: `when: ""`, `when: "  "`):
+		// no boolean — the action must fail, at whatever depth it sits
+		cond = sp(pick(r, c12BlankConds))
+	}
+	if tpls != nil && len(*tpls) > 0 && r.Intn(12) == 0 {
+		// the text some other action's template operation stores: a boolean for some templates, none for others,
+		// nothing at all ("<no value>") when that action has not run
+		cond = sp("{{ .t." + pick(r, *tpls) + " }}")
+	}
 	a := c12Node(name, ops, cond, 0)
+	for i := range a.Ops {
+		if a.Ops[i].K == "template" {
+			if tpls != nil {
+				a.Ops[i].Tmpl = c12TemplateText(r, name)
+				*tpls = append(*tpls, name)
+			}
+		}
+	}
 	for _, k := range ops {
 		if k == "set" {
 			*others = append(*others, name)
@@ -162,7 +208,7 @@ func c12RandTree(r *rand.Rand, name string, depth, maxDepth, maxFan int, others 
 		}
 		orders := r.Perm(2*maxFan + 1)
 		for i := 0; i < n; i++ {
-			c := c12RandTree(r, fmt.Sprintf("%s%d", name, i), depth+1, maxDepth, maxFan, others)
+			c := c12RandTree(r, fmt.Sprintf("%s%d", name, i), depth+1, maxDepth, maxFan, others, tpls)
 			c.Order = orders[i] - maxFan
 			a.Children = append(a.Children, c)
 		}
@@ -176,7 +222,7 @@ func c12Run(c *Ctx) {
 	orders := [][2]int{{1, 2}, {2, 1}, {-1, 0}, {5, -3}}
 	total := c12EnumTotal()
 	if c.Thorough() && !c.searchMode {
-		c.Note("exhaustive scope: %d trees (root: 16 op subsets x 5 conditions; 0..2 children: 6 op subsets x 5 conditions each)", total)
+		c.Note("exhaustive scope: %d trees (root: 16 op subsets x %d conditions; 0..2 children: 6 op subsets x %d conditions each)", total, len(c12Conds), len(c12Conds))
 		for i := 0; i < total; i++ {
 			c.Tick()
 			cs, _ := c12EnumCase(i, orders)
@@ -197,8 +243,18 @@ func c12Run(c *Ctx) {
 		if maxDepth >= 4 && maxFan > 2 {
 			maxFan = 2
 		}
-		root := c12RandTree(r, "r", 0, maxDepth, maxFan, &others)
+		var tpls []string
+		root := c12RandTree(r, "r", 0, maxDepth, maxFan, &others, &tpls)
 		c.Do("tree", c12Case{Data: c12Data(), Root: root})
+	}
+	// SEQUENCES: several actions executed one after the other by ONE executor on one data document
+	for _, cs := range c12SeqBasics() {
+		c.Tick()
+		c.Do("seq", cs)
+	}
+	for i := 0; i < c.N(600); i++ {
+		c.Tick()
+		c.Do("seq", c12GenSeq(r))
 	}
 	// every kind of operation the program form knows, several of them on the same node
 	for _, cs := range c12MixedPairs(r) {
@@ -256,6 +312,9 @@ func c12Eval(c *Ctx, kind string, raw []byte) {
 		return
 	case "allops":
 		c12EvalAll(c, raw)
+		return
+	case "seq":
+		c12EvalSeq(c, raw)
 		return
 	}
 	var p c12Case
@@ -351,17 +410,26 @@ func c12Direct(c *Ctx, p *c12Case, run *c12RunRes, ret error, variant string) {
 	if !c.Direct("well-nested"+v, problem == "" && len(roots) == 1, map[string]any{"problem": problem, "trace": run.tr}) {
 		return
 	}
-	root := roots[0]
+	c12DirectRoot(c, p.Data, &p.Root, run, roots[0], ret, v)
+	// a run in which nothing executed (root skipped) leaves the data as it was
+	if known, val := c12KnownCond(p.Root.When, p.Data); known && !val {
+		c.Direct("skipped-root-data-unchanged"+v, canon(run.dataWire()) == canon(p.Data), run.dataWire())
+	}
+}
+
+// c12DirectRoot: the clauses for ONE top-level Execute(act) call, whose before/after pair is root.  flags = the
+// document that holds the two flags no generated operation writes.
+func c12DirectRoot(c *Ctx, flags W, act *c12Act, run *c12RunRes, root *c12TNode, ret error, v string) {
+	rec := run.rec
 	// "… the after-notification carrying the action's error": the root's is what Execute returned
-	c.Direct("after-carries-error"+v, c12SameErr(root.err, ret) && root.label == "act:"+p.Root.Name,
+	c.Direct("after-carries-error"+v, c12SameErr(root.err, ret) && root.label == "act:"+act.Name,
 		map[string]any{"trace": run.tr, "returned": fmt.Sprint(ret)})
 	// "the first failing operation stops the whole run, its error is returned and nothing after it executes"
-	ff := c12FailFast(rec, 0, len(rec.ev), ret)
+	ff := c12FailFast(rec, root.first, root.last+1, ret)
 	c.Direct("fail-fast"+v, ff == "", map[string]any{"problem": ff, "trace": run.tr})
 
 	index := map[string]*c12Act{}
-	c12Index(&p.Root, index)
-	initial := canon(p.Data)
+	c12Index(act, index)
 	var walk func(n *c12TNode)
 	walk = func(n *c12TNode) {
 		a := index[n.label]
@@ -372,7 +440,8 @@ func c12Direct(c *Ctx, p *c12Case, run *c12RunRes, ret error, variant string) {
 			return
 		}
 		// the condition, as the harness itself knows it for constants and the two never-written flags
-		known, val := c12KnownCond(a.When, p.Data)
+		class := c12CondClass(a.When, flags)
+		known, val := class == "none" || class == "true" || class == "false", class != "false"
 		// the EvalBool results observed directly inside this action
 		var tests []any
 		for _, e := range n.leafs {
@@ -383,6 +452,20 @@ func c12Direct(c *Ctx, p *c12Case, run *c12RunRes, ret error, variant string) {
 		var kidLabels []string
 		for _, k := range n.kids {
 			kidLabels = append(kidLabels, k.label)
+		}
+		if class == "error" {
+			// a condition that is present must evaluate to a boolean: a constant text that is none (blank texts
+			// included) fails the action — "its error is returned and nothing after it executes": neither the
+			// action's operations nor its children run, and the run carries an error from here on
+			c.Dist("cond:constant-not-boolean")
+			if strings.TrimSpace(*a.When) == "" {
+				c.Dist("cond:blank")
+			}
+			c.Direct("condition-without-boolean-value-fails"+v, len(n.kids) == 0 && n.hasE && ret != nil,
+				map[string]any{"action": a.Name, "when": *a.When, "inside": kidLabels, "afterCarriesError": n.hasE, "returned": fmt.Sprint(ret), "trace": run.tr})
+			c.Direct("failed-condition-changes-nothing"+v, rec.snap[n.first] == rec.snap[n.last],
+				map[string]any{"action": a.Name, "when": *a.When, "before": json.RawMessage(rec.snap[n.first]), "after": json.RawMessage(rec.snap[n.last])})
+			return
 		}
 		if known && !val {
 			// "An action whose condition evaluates to false runs neither its operations nor its children and changes nothing"
@@ -438,17 +521,19 @@ func c12Direct(c *Ctx, p *c12Case, run *c12RunRes, ret error, variant string) {
 		}
 	}
 	walk(root)
-	// a run in which nothing executed (root skipped) leaves the data as it was
-	if known, val := c12KnownCond(p.Root.When, p.Data); known && !val {
-		c.Direct("skipped-root-data-unchanged"+v, canon(run.dataWire()) == initial, run.dataWire())
-	}
 }
 
-// c12KnownCond: conditions whose value the harness knows without evaluating any template engine:
-// absent, boolean literals, and the two flags that the initial data holds and no generated operation writes.
-func c12KnownCond(w *string, data W) (known, val bool) {
+// c12CondClass: what the harness knows about a condition without evaluating any template engine:
+//
+//	none    no condition
+//	true    a boolean literal (strconv.ParseBool's table, white space around it ignored) or the flag the
+//	false   initial data holds and no generated operation writes
+//	error   a constant text (no template action in it) that is no boolean literal — empty and white-space-only
+//	        texts included: the condition is present, so it has to evaluate to a boolean, and it cannot
+//	""      data dependent: not known here
+func c12CondClass(w *string, data W) string {
 	if w == nil {
-		return true, true
+		return "none"
 	}
 	flag := func(k, want string) bool {
 		m, _ := wireCont(data)
@@ -456,13 +541,34 @@ func c12KnownCond(w *string, data W) (known, val bool) {
 	}
 	switch t := strings.TrimSpace(*w); t {
 	case "true", "1", "T", "True", "TRUE", "t":
-		return true, true
+		return "true"
 	case "false", "0", "F", "False", "FALSE", "f":
-		return true, false
+		return "false"
 	case "{{ .flagT }}":
-		return flag("flagT", "true"), true
+		if flag("flagT", "true") {
+			return "true"
+		}
+		return ""
 	case "{{ .flagF }}":
-		return flag("flagF", "false"), false
+		if flag("flagF", "false") {
+			return "false"
+		}
+		return ""
+	default:
+		if !strings.Contains(t, "{{") && !strings.Contains(t, "}}") {
+			return "error"
+		}
+	}
+	return ""
+}
+
+// c12KnownCond: conditions whose boolean value the harness knows (see c12CondClass).
+func c12KnownCond(w *string, data W) (known, val bool) {
+	switch c12CondClass(w, data) {
+	case "none", "true":
+		return true, true
+	case "false":
+		return true, false
 	}
 	return false, false
 }
